@@ -1466,3 +1466,120 @@ func init() {
 		RunSpec(c, spec, c.Scale(4000, 200000))
 	})
 }
+
+// ---- exhaustive small scope (thorough tier) ----
+
+// c05Alphabet: one lexeme per token kind the parser distinguishes
+var c05Alphabet = []qlex{
+	{Text: "a", Kind: "id"}, {Text: "x", IsStr: true}, {Text: "(", IsStr: true} /* not a regex */, {Text: "1", Kind: "num"}, {Text: "0.5", Kind: "num"},
+	{Text: "5m", Kind: "dur"}, {Text: "5KB", Kind: "bytes"},
+}
+
+func init() {
+	seen := map[string]bool{}
+	for s := range c05Spell {
+		if !seen[s] {
+			seen[s] = true
+			c05Alphabet = append(c05Alphabet, qlex{Text: s, Kind: "w"})
+		}
+	}
+	sort.Slice(c05Alphabet[7:], func(i, j int) bool { return c05Alphabet[7+i].Text < c05Alphabet[7+j].Text })
+
+	propsExtra["C05"] = append(propsExtra["C05"], func(c *Ctx) {
+		if !c.Thorough() || c.ReplayIn != "" {
+			return
+		}
+		// every token sequence of length 1-3 over the whole alphabet, and of length 4-5 over a core alphabet,
+		// written with single spaces: logql.Parse and the model must agree on acceptance and on the tree
+		spec := &Spec[C05Case]{
+			What:   "Parser.parse Gen.prec Gen.isLogic (lexer.Tokenize text) == logql.Parse text; layout independence of logql.Parse",
+			Req:    c05Req,
+			Impl:   c05Impl,
+			Equal:  func(t C05Case, impl, model Sexp) bool { return normNums(impl).String() == normNums(model).String() },
+			Nontrivial:    func(t C05Case, impl Sexp) bool { return impl.Head() == "ok" },
+			PropertyFails: func(t C05Case, impl, model Sexp) bool { return true },
+			Signature:     func(t C05Case, impl, model Sexp) string { return c05Signature(t, impl, model) },
+			Tags: func(t C05Case, impl Sexp) []string {
+				return []string{fmt.Sprintf("c05:exhaustive:len=%d:%s", len(t.Lex), impl.Head())}
+			},
+			Key: func(t C05Case) string { return t.Text },
+		}
+		var cases []C05Case
+		flush := func() {
+			RunCases(c, spec, cases)
+			cases = cases[:0]
+		}
+		var rec func(alpha []qlex, prefix []qlex, n int)
+		rec = func(alpha []qlex, prefix []qlex, n int) {
+			if n == 0 {
+				ls := append([]qlex{}, prefix...)
+				cases = append(cases, c05Mk(ls, 0, "exhaustive"))
+				if len(cases) >= 20000 {
+					flush()
+				}
+				return
+			}
+			for _, a := range alpha {
+				rec(alpha, append(prefix, a), n-1)
+			}
+		}
+		for n := 1; n <= 3; n++ {
+			rec(c05Alphabet, nil, n)
+		}
+		core := []qlex{}
+		for _, l := range c05Alphabet {
+			switch l.Text {
+			case "a", "x", "1", "5m", "{", "}", "(", ")", "[", "]", "=", "|", "|=", ",", "+", "and", "by", "sum", "rate", "vector", "unwrap", "json", "drop", "offset":
+				if l.Text == "(" && l.IsStr {
+					continue
+				}
+				core = append(core, l)
+			}
+		}
+		rec(core, nil, 4)
+		flush()
+		c.Res.ExhaustiveNote = fmt.Sprintf("C05: every token sequence of length 1-3 over the %d-lexeme alphabet and of length 4 over a %d-lexeme core alphabet", len(c05Alphabet), len(core))
+	})
+
+	// the lexer on every byte string of length <= 3 over a 48-byte alphabet and of length 4 over a 22-byte one
+	propsExtra["C05"] = append(propsExtra["C05"], func(c *Ctx) {
+		if !c.Thorough() || c.ReplayIn != "" {
+			return
+		}
+		spec := &Spec[C05LexCase]{
+			What: "Lexer.tokenize text == lexer.Tokenize text",
+			Req:  func(t C05LexCase) Sexp { return L(A("lex"), B(string(t.Text))) },
+			Impl: c05LexImpl,
+			Equal: func(t C05LexCase, impl, model Sexp) bool {
+				return model.Head() == "unsup" || impl.String() == model.String()
+			},
+			Nontrivial:    func(t C05LexCase, impl Sexp) bool { return impl.Head() == "ok" },
+			PropertyFails: func(t C05LexCase, impl, model Sexp) bool { return false },
+			Signature:     func(t C05LexCase, impl, model Sexp) string { return "lexer:impl=" + impl.Head() + ",model=" + model.Head() },
+			Tags:          func(t C05LexCase, impl Sexp) []string { return []string{"c05lex:exhaustive:" + impl.Head()} },
+			Key:           func(t C05LexCase) string { return "lex:" + string(t.Text) },
+		}
+		full := []byte("ab_w(){}[]|=!~<>+-*/%^.,#\"`'\\ \n\t09eE5xmKsBi:@\x00\xc3\xa9")
+		small := []byte("a(|=!~-/*.#\"`\\ \n15meK")
+		var cases []C05LexCase
+		var rec func(alpha []byte, prefix []byte, n int)
+		rec = func(alpha []byte, prefix []byte, n int) {
+			if n == 0 {
+				cases = append(cases, C05LexCase{Text: append([]byte{}, prefix...), How: "exhaustive"})
+				if len(cases) >= 20000 {
+					RunCases(c, spec, cases)
+					cases = cases[:0]
+				}
+				return
+			}
+			for _, b := range alpha {
+				rec(alpha, append(prefix, b), n-1)
+			}
+		}
+		for n := 0; n <= 3; n++ {
+			rec(full, nil, n)
+		}
+		rec(small, nil, 4)
+		RunCases(c, spec, cases)
+	})
+}
